@@ -561,6 +561,8 @@ pub fn check_core(c: &CoreCase) -> Verdict {
 }
 
 pub fn run(run: &Run) {
+    // a single allocation request that would abort the process is decided for the case in flight (engine::absurd_fatal)
+    TRACK_INFLIGHT.store(true, std::sync::atomic::Ordering::Relaxed);
     run.assume("heap growth is measured by a thread-local counting allocator around each call on a single-threaded runtime");
     run.assume("timestamp window edges get a 5 s dead band (wall clock)");
     run.set_rule("inbound", "bytes handed to handle_dht_message and, framed (protocol, claimed sender, timestamp offset, optional frame mutations), to the real receive dispatcher: random bytes with sizes clustered at 0/1/64Ki−1/64Ki/64Ki+1/128Ki, structure-aware mutations (bit flips, truncation, splices, maximal varints, byte overwrite) of every valid message kind, and valid messages with extreme fields; non-trivial = decodes at least to the outer message, or a boundary size");
